@@ -62,9 +62,14 @@ def main():
                "(the code is no longer what the model describes), but on every explored input the property's own oracle still holds "
                "on the changed code (C09-1 moves a threshold inside a gap where no value of the vocabulary lies; C14-1 changes bar "
                "arithmetic that C13's check reports with a concrete input, while the track-level statement of C14 is unaffected; "
-               "C06-10 respells a note on the same letter and pitch, see 0.3b), so "
+               "C06-10 respells a note on the same letter and pitch, C09-13 computes value.add in another floating-point form that "
+               "differs from the modelled three roundings in the last bit, C09-16 retypes a dots() constant one ulp off, C17-18 "
+               "truncates instead of rounding tick counts that are not whole (outside C17's stated domain; C16 reports it), C18-15 "
+               "changes the parallel scheduler only where the unchanged code is already wrong (known finding), see 0.3b), so "
                "the report names the theorems that no longer check, as the brief prescribes." % (
-                   n_rounds, 2 * n_rounds - 1, 2 * n_rounds, n_all - len(missed), n_all, n_conc, "" if not missed else "; NOT detected: " + ", ".join(missed),
+                   n_rounds, 2 * n_rounds - 1, 2 * n_rounds, n_all - len(missed), n_all, n_conc, "" if not missed else "; not reported: " + ", ".join(missed) +
+                   " (C15-15 makes chords.invert hand back the caller's own one-note list, which the statement of C15 does not forbid "
+                   "and the unchanged chords.determine(['C#']) does too, see 0.3b)",
                    ", ".join(nfi) if nfi else "None"))
     text = "\n".join(out) + "\n"
     p = os.path.join(V, "DESIGN.md")
